@@ -334,6 +334,16 @@ class Interp(Engine):
                 if r is not NotImplemented:
                     return r
             raise OutOfSubset('sequence binop with symbolic operand')
+        if isinstance(a, SSeq) and isinstance(b, SSeq) and isinstance(op, ast.Add):
+            # concatenation of two sequences of symbolic length whose elements are object references
+            la, ea, eb = a.length, a.elem, b.elem
+
+            def elem(k):
+                x, y = ea(k), eb(k - la)
+                if isinstance(x, SRef) and isinstance(y, SRef):
+                    return SRef(z3.If(k < la, x.t, y.t), None, False)
+                raise OutOfSubset('concatenation of sequences of non-reference elements')
+            return SSeq(la + b.length, elem, '%s+%s' % (a.name, b.name))
         x, y = self.as_int(a), self.as_int(b)
         if isinstance(op, ast.Add):
             return SInt(x + y)
